@@ -1,0 +1,11 @@
+//go:build !verif
+
+// Package verifhook provides yield points for the verification harness.
+// Without the build tag `verif` every function is an empty, inlinable no-op.
+package verifhook
+
+// Point is a no-op unless built with -tags verif.
+func Point(label string, args ...uint64) {}
+
+// ID is a no-op unless built with -tags verif.
+func ID(v interface{}) uint64 { return 0 }
